@@ -9,7 +9,7 @@
 From Coq Require Import List NArith ZArith.
 From PB Require Import Base.PBytes Json.JsonUtf8 Json.JsonGrammar Json.JsonNumModel Json.JsonNumP
   Json.JsonLexModel Json.JsonStrP Json.JsonLexP Json.JsonEncModel Json.JsonEncP Json.JsonEncSpec
-  Json.JsonEncGrammarP Json.JsonGrammarP.
+  Json.JsonEncGrammarP Json.JsonGrammarP Json.JsonStrict Json.JsonLexCompleteP Json.JsonGrammarCompleteP Json.JsonLexExactP.
 Import ListNotations.
 
 (* If reading tokens to EOF succeeds (and at least one token was read) the input is a JSON
@@ -55,11 +55,15 @@ Proof. exact is_rfc_number_iff. Qed.
 Print Assumptions C21_is_rfc_number_iff.
 
 (* The executable recogniser of whole documents (the one the harness compares with
-   encoding/json.Valid && utf8.Valid on every generated document) accepts only members of the
-   inductive grammar.  (Completeness of [is_json] is checked by the harness only.) *)
+   encoding/json.Valid && utf8.Valid on every generated document) and the inductive grammar
+   coincide. *)
 Theorem C21_is_json_sound : forall s, is_json s = true -> json_text s.
 Proof. exact is_json_sound. Qed.
 Print Assumptions C21_is_json_sound.
+
+Theorem C21_is_json_iff : forall s, is_json s = true <-> json_text s.
+Proof. exact is_json_iff. Qed.
+Print Assumptions C21_is_json_iff.
 
 (* parseString accepts only RFC 8259 strings (escapes, \u with surrogate pairs, UTF-8) *)
 Theorem C21_parse_string_sound :
@@ -86,20 +90,65 @@ Theorem C21_encoder_emits_json :
 Proof. exact encoder_emits_json. Qed.
 Print Assumptions C21_encoder_emits_json.
 
-(* Indent and detrand only change insignificant whitespace: after deleting the whitespace
-   outside string literals ([squeeze SqOut], Json/JsonEncSpec.v) every rendering equals the
-   canonical compact rendering [compact t].
-   _partial: "parses to the same value" is stated through RFC 8259 section 2 (whitespace
-   around structural characters is insignificant); that the Decoder model yields the same
-   token sequence for [s] and [squeeze SqOut s] on JSON texts is not proved here (the harness
-   checks it on the implementation with encoding/json and with the Decoder itself). *)
-Theorem C21_indent_invariant_partial :
+(* Decoder completeness.  [stext s ks] (Json/JsonStrict.v) is RFC 8259 with the one side condition
+   the code has: a \u escape that denotes a UTF-16 surrogate must be a high surrogate
+   (D800..DBFF) immediately followed by the \u escape of a low surrogate (DC00..DFFF); the
+   grammar is indexed by the tokens [ks] (kind, raw bytes, bool, decoded string) of the
+   derivation.  Every such text is read to EOF, yielding exactly those tokens. *)
+Theorem C21_lexer_accepts_all_strict_json :
+  forall s ks, stext s ks ->
+    exists toks, read_all s = (toks, None) /\ map atok_of toks = ks /\ toks <> [].
+Proof. exact lexer_accepts_all_strict_json. Qed.
+Print Assumptions C21_lexer_accepts_all_strict_json.
+
+Theorem C21_strict_json_is_json : forall s ks, stext s ks -> json_text s.
+Proof. exact stext_json_text. Qed.
+Print Assumptions C21_strict_json_is_json.
+
+(* On the domain of inputs whose readings as a JSON text have no unpaired surrogate escapes,
+   the Decoder accepts exactly the JSON texts. *)
+Theorem C21_lexer_accepts_iff_json :
+  forall s, (json_text s -> exists ks, stext s ks) ->
+    ((exists toks, read_all s = (toks, None) /\ toks <> []) <-> json_text s).
+Proof. exact lexer_accepts_iff_json. Qed.
+Print Assumptions C21_lexer_accepts_iff_json.
+
+(* The Decoder's language exactly (no domain restriction): an input is read to EOF, with at
+   least one token, iff it is a strict JSON text; and the tokens read are those of the
+   derivation.  (The soundness half replays the simulation argument for the strict grammar,
+   Json/JsonLexStrictP.v.) *)
+Theorem C21_lexer_accepts_exactly_strict_json :
+  forall s, (exists toks, read_all s = (toks, None) /\ toks <> []) <-> (exists ks, stext s ks).
+Proof. exact lexer_accepts_exactly_strict_json. Qed.
+Print Assumptions C21_lexer_accepts_exactly_strict_json.
+
+Theorem C21_lexer_tokens_are_derivation :
+  forall s toks, read_all s = (toks, None) -> toks <> [] -> stext s (map atok_of toks).
+Proof. exact lexer_tokens_are_derivation. Qed.
+Print Assumptions C21_lexer_tokens_are_derivation.
+
+(* indent_invariant, full statement: every rendering (any indent of spaces/tabs, any detrand
+   stream) is read back by the Decoder to EOF as the token sequence of the tree, hence parses
+   to the same token/value sequence as the compact rendering. *)
+Theorem C21_indent_invariant :
+  forall rnd1 rnd2 indent1 indent2 t,
+    indent_ok indent1 = true -> indent_ok indent2 = true -> tree_ok t ->
+    snd (read_all (fst (render rnd1 indent1 t))) = None /\ snd (read_all (fst (render rnd2 indent2 t))) = None /\
+    map atok_of (fst (read_all (fst (render rnd1 indent1 t)))) = map atok_of (fst (read_all (fst (render rnd2 indent2 t)))) /\
+    map atok_of (fst (read_all (fst (render rnd1 indent1 t)))) = tree_toks t.
+Proof. exact indent_invariant_tokens. Qed.
+Print Assumptions C21_indent_invariant.
+
+(* ... and, independently of the Decoder, indent and detrand only change insignificant
+   whitespace: after deleting the whitespace outside string literals ([squeeze SqOut],
+   Json/JsonEncSpec.v) every rendering equals the canonical compact rendering [compact t]. *)
+Theorem C21_indent_invariant_modulo_ws :
   forall rnd1 rnd2 indent1 indent2 t,
     indent_ok indent1 = true -> indent_ok indent2 = true -> tree_ok t ->
     squeeze SqOut (fst (render rnd1 indent1 t)) = squeeze SqOut (fst (render rnd2 indent2 t)) /\
     squeeze SqOut (fst (render rnd1 indent1 t)) = compact t.
 Proof. exact indent_invariant. Qed.
-Print Assumptions C21_indent_invariant_partial.
+Print Assumptions C21_indent_invariant_modulo_ws.
 
 (* Read's recursion after a comma is at most one level deep (justifies the shape of [read]) *)
 Theorem C21_read_step_after_comma :
@@ -132,3 +181,7 @@ Proof. split; [apply is_rfc_number_iff; vm_compute; reflexivity|vm_compute; spli
 Example C21_ex_is_json :
   is_json C21_doc = true /\ is_json ["["; "1"; ","; "]"]%byte = false /\ is_json [] = false.
 Proof. vm_compute. repeat split. Qed.
+Example C21_ex_render_reads :
+  map atok_of (fst (read_all (fst (render (fun _ => true) [" "; " "]%byte C21_tree)))) = tree_toks C21_tree /\
+  length (tree_toks C21_tree) = 11%nat.
+Proof. vm_compute. split; reflexivity. Qed.
